@@ -136,6 +136,7 @@ theorem accepts_iff (lim : Limits) (ds : List Node) (hlen : (flattenStream ds).l
         rw [fresh_mergeKeys, fresh_containers] at hb
         rw [mkAll_append] at hwi; simp only [mkAll] at hwi; omega
       case unbalanced => exact hnu h
+      case ratio a n => simp [Enf.new] at hb
 
 /-- (T) the ratio heuristic applied by `finalize` is the mathematical one (the product saturates
 instead of overflowing, which cannot change the comparison). -/
@@ -150,7 +151,9 @@ theorem ratio_exact (lim : Limits) (ds : List Node) (e : Enf)
   have ha : (usage ds).aliases ≤ USIZE_MAX := by
     have := nAliases_le_length (flattenStream ds)
     simp only [usage, USIZE_MAX]; omega
-  have hs := finalize_snd e
+  have hpd : e.perDocument = false := by
+    obtain ⟨rfl, -⟩ := runFrom_ok h; simp [Enf.new]
+  have hs := finalize_snd e hpd
   rw [hu, hl] at hs
   rw [hs]
   have hdec : decide ((usage ds).aliases > satMul lim.multiplier (usage ds).anchors) =
@@ -228,6 +231,7 @@ theorem first_breach_kind (lim : Limits) (evs : List Raw) (i : Nat) (b : Breach)
     rw [scalarBytes_append, scalarBytes_cons, scalarBytes_nil]; omega
   case depth n => exact hb.2.2
   case mergeKeys n => exact hb.2.2
+  case ratio a n => simp [Enf.new] at hb
 
 /-! ## per-document policy (`EnforcingPolicy::PerDocument`, the `read*` iterators)
 
@@ -476,97 +480,260 @@ theorem perdoc_report_eq_usageDoc (lim : Limits) (d : Node) (e : Enf)
       doc_tsb lim _ hp, doc_mergeKeys lim _ hp, hmk,
       nEvents_doc, nAliases_doc, nAnchors_doc, nNodes_doc, maxDepth_doc, scalarBytes_doc]
 
-/-- (T) per-document `accepts_iff`: a document is accepted under the per-document policy ⇔ every count of its own
-events is within its limit (`max_documents` plays no role: the documents counter stays 0). -/
-theorem perdoc_accepts_iff (lim : Limits) (d : Node) (hlen : (flattenDoc d).length < 2 ^ 64) :
-    perDocAccepts lim [d] = true ↔ within lim (usageDoc d) = true := by
-  have hacc : perDocAccepts lim [d] = acc (docRun lim d) := by
-    have : perDocAccepts lim [d] = acc (run lim true (flattenStream [d])) := by unfold perDocAccepts acc; rfl
-    rw [this, perDoc_single, acc_shiftErr]
+/-! ### the alias/anchor ratio is a per-document quantity
+
+Under the per-document policy the ratio heuristic is judged by `observe` at every `DocumentEnd`, on the counters of the
+document that ends there; `finalize` is silent.  (Before this repair only `finalize` judged it, at the end of the
+stream, on the counters of the LAST document: `a: &x 1` / `b: [*x, *x, *x]` with `min_aliases = 1`, `multiplier = 1`
+passed as a non-last document and was rejected as the last one or alone.) -/
+
+/-- (T) a document accepted from the fresh per-document state: every count within its limit, the ratio check silent,
+the report is the independent count -/
+theorem perdoc_ok_spec (lim : Limits) (d : Node) (e : Enf) (hlen : (flattenDoc d).length < 2 ^ 64)
+    (h : docRun lim d = .ok e) :
+    within lim (usageDoc d) = true ∧ ratioOk lim (usageDoc d) = true ∧ e.finalize.1 = usageDoc d := by
+  have hu := perdoc_report_eq_usageDoc lim d e hlen h
+  rw [docRun_eq] at h
+  split at h
+  · cases h
+  · rename_i h1
+    have hfull := h
+    obtain ⟨rfl, hw⟩ := runFrom_ok h
+    have hw := hw (by simp [Within, docStartState]; omega)
+    refine ⟨within_of_docFinal lim d hlen hw, ?_, hu⟩
+    -- the last event is the DocumentEnd: its ratio check was silent
+    rw [docBody_eq, runFrom_append] at hfull
+    split at hfull
+    · cases hfull
+    · rename_i e1 he1
+      simp only [runFrom] at hfull
+      split at hfull
+      · cases hfull
+      · rename_i e2 he2
+        have hpd1 : e1.perDocument = true := by
+          obtain ⟨rfl, -⟩ := runFrom_ok he1; rw [nextAll_pd]; rfl
+        have hr := (observe_docEnd_ok_pd hpd1 he2).2
+        injection hfull with hfull
+        subst hfull
+        rw [← docBody_eq, docFinal_ratio lim d hlen] at hr
+        split at hr
+        · assumption
+        · cases hr
+
+/-- (T) within the limits the only breach a document can raise is the ratio breach -/
+theorem perdoc_no_other_breach (lim : Limits) (d : Node) (hlen : (flattenDoc d).length < 2 ^ 64)
+    (hwi : within lim (usageDoc d) = true) (j : Nat) (b : Breach) (h : docRun lim d = .error (j, b)) :
+    ∃ a n, b = .ratio a n := by
   have hp := docBody_plain d
   have hl : (docBody d).length < 2 ^ 64 := by
     rw [flattenDoc_eq] at hlen; simp only [List.length_cons] at hlen; omega
   have hmk : mkAll false [] (docBody d) = mergeKeys d := congrArg (·.2.1) (G_docBody false d)
+  by_cases hrb : ∃ a n, b = .ratio a n
+  · exact hrb
+  · exfalso
+    rw [within_iff] at hwi
+    simp only [usageDoc] at hwi
+    rw [nEvents_doc, nAliases_doc, nAnchors_doc, nNodes_doc, maxDepth_doc, scalarBytes_doc, ← hmk] at hwi
+    rw [docRun_eq] at h
+    split at h
+    · omega
+    · have hnu : b ≠ .unbalanced := by
+        rintro rfl
+        have := unbalanced_wfAll_false (e := docStartState lim 0) rfl (by simpa [docStartState] using hl) h
+        have hw : wfAll true [] (docBody d) = true := congrArg (·.2.2) (G_docBody true d)
+        simp only [docStartState] at this
+        rw [hw] at this; cases this
+      obtain ⟨pre, ev, post, heq, -, -, herr⟩ := runFrom_err h
+      have hb := observe_err herr
+      rw [heq] at hp hl hwi
+      simp only [List.all_append, List.all_cons, Bool.and_eq_true] at hp
+      obtain ⟨hpp, hpe, -⟩ := hp
+      rw [pro_of_not_docStart (plainEv_iff.1 hpe).1] at hb
+      simp only [List.length_append, List.length_cons] at hl hwi
+      have hlen' : pre.length < 2 ^ 64 := by omega
+      cases b <;> simp only [BreachSpec, doc_lim] at hb
+      case ratio a n => exact hrb ⟨a, n, rfl⟩
+      case events n => rw [doc_events lim pre hpp] at hb; omega
+      case nodes n =>
+        rw [doc_nodes lim pre hpp] at hb
+        rw [nNodes_append, nNodes_cons, hb.1] at hwi; simp only [b2n, if_true] at hwi; omega
+      case aliases n =>
+        rw [doc_aliases lim pre hpp] at hb
+        rw [nAliases_append, nAliases_cons, hb.1] at hwi; simp only [b2n, if_true] at hwi; omega
+      case documents n =>
+        have : (nextAll (docStartState lim 0) pre).perDocument = true := by rw [nextAll_pd]; rfl
+        rw [this] at hb; cases hb.2.1
+      case anchors n =>
+        rw [doc_defined lim pre hpp] at hb
+        have h1 : (defAfter [] (pre ++ ev :: post)).length =
+            (defAfter (defIns (defAfter [] pre) (anchorOf ev)) post).length := by
+          rw [defAfter_append]; rfl
+        have h2 := defAfter_length_ge (defIns (defAfter [] pre) (anchorOf ev)) post
+        omega
+      case scalarBytes n =>
+        rw [doc_tsb lim pre hpp, satAdd_eq_min] at hb
+        rw [scalarBytes_append, scalarBytes_cons] at hwi; omega
+      case depth n =>
+        obtain ⟨hd, hm⟩ := doc_depth lim pre hpp hlen'
+        have hle := depthAfter_le 0 pre
+        rw [hd, hm, satAdd_one (by omega)] at hb
+        have hge := maxDepthFrom_ge (depthStep (depthAfter 0 pre) ev)
+          (max (maxDepthFrom 0 0 pre) (depthStep (depthAfter 0 pre) ev)) post
+        rw [maxDepthFrom_append] at hwi
+        simp only [maxDepthFrom] at hwi
+        rw [depthStep_eq, hb.1] at hge hwi
+        simp only [if_true] at hge hwi hb
+        omega
+      case mergeKeys n =>
+        rw [doc_mergeKeys lim pre hpp, doc_containers lim pre hpp] at hb
+        rw [mkAll_append] at hwi; simp only [mkAll] at hwi; omega
+      case unbalanced => exact hnu rfl
+
+/-- (T) a ratio breach is raised at the document's own `DocumentEnd` (its last event), after every count — this event
+included — passed its limit, carries the alias and anchor counts of the document, and means that the Spec ratio check
+fails on them -/
+theorem perdoc_ratio_breach_spec (lim : Limits) (d : Node) (hlen : (flattenDoc d).length < 2 ^ 64) (j a n : Nat)
+    (h : docRun lim d = .error (j, .ratio a n)) :
+    j = (flattenDoc d).length - 1 ∧ a = (usageDoc d).aliases ∧ n = (usageDoc d).anchors ∧
+      within lim (usageDoc d) = true ∧ ratioOk lim (usageDoc d) = false := by
+  rw [docRun_eq] at h
+  split at h
+  · cases h
+  · rename_i h1
+    obtain ⟨pre, ev, post, heq, hj, hok, herr⟩ := runFrom_err h
+    have hb := observe_err herr
+    simp only [BreachSpec] at hb
+    obtain ⟨-, hev, hevents, hr⟩ := hb
+    subst hev
+    rw [pro_of_not_docStart rfl] at hevents hr
+    rw [docBody_eq] at heq
+    obtain ⟨rfl, rfl⟩ := split_at_docEnd (flatten_noDocEnd d) heq
+    have hS : nextAll (docStartState lim 0) (docBody d) = next (nextAll (docStartState lim 0) (flatten d)) .docEnd := by
+      rw [docBody_eq, nextAll_append]; rfl
+    have hw : Within (nextAll (docStartState lim 0) (docBody d)) := by
+      rw [hS]
+      exact within_next_docEnd ((runFrom_ok hok).2 (by simp [Within, docStartState]; omega)) hevents
+    have hr' := docFinal_ratio lim d hlen
+    rw [hS, ratioBreach_next_docEnd, hr] at hr'
+    have hro : ratioOk lim (usageDoc d) = false ∧ a = (usageDoc d).aliases ∧ n = (usageDoc d).anchors := by
+      split at hr'
+      · cases hr'
+      · rename_i hno
+        injection hr' with hr'; injection hr' with h2 h3
+        exact ⟨by simpa using hno, h2, h3⟩
+    refine ⟨?_, hro.2.1, hro.2.2, within_of_docFinal lim d hlen hw, hro.1⟩
+    rw [hj, flattenDoc_eq, docBody_eq]; simp; omega
+
+/-- (T) per-document `accepts_iff`, ratio included: a document is accepted under the per-document policy ⇔ every count of
+its own events is within its limit AND the alias/anchor ratio check passes on its own alias and anchor counts
+(`max_documents` plays no role: the documents counter stays 0). -/
+theorem perdoc_accepts_iff (lim : Limits) (d : Node) (hlen : (flattenDoc d).length < 2 ^ 64) :
+    perDocAccepts lim [d] = true ↔ (within lim (usageDoc d) = true ∧ ratioOk lim (usageDoc d) = true) := by
+  have hacc : perDocAccepts lim [d] = acc (docRun lim d) := by
+    have : perDocAccepts lim [d] = acc (run lim true (flattenStream [d])) := by unfold perDocAccepts acc; rfl
+    rw [this, perDoc_single, acc_shiftErr]
   rw [hacc]
   constructor
   · intro ha
     cases h : docRun lim d with
     | error p => rw [h] at ha; cases ha
-    | ok e =>
-      have hu := perdoc_report_eq_usageDoc lim d e hlen h
-      rw [docRun_eq] at h
-      split at h
-      · cases h
-      · rename_i h1
-        obtain ⟨rfl, hw⟩ := runFrom_ok h
-        have hw := hw (by simp [Within, docStartState]; omega)
-        rw [← hu, finalize_fst]
-        simp only [Within, doc_lim] at hw
-        rw [within_iff]
-        dsimp only
-        omega
-  · intro hwi
+    | ok e => exact ⟨(perdoc_ok_spec lim d e hlen h).1, (perdoc_ok_spec lim d e hlen h).2.1⟩
+  · rintro ⟨hwi, hro⟩
     cases h : docRun lim d with
     | ok e => rfl
     | error p =>
       exfalso
       obtain ⟨j, b⟩ := p
-      rw [within_iff] at hwi
-      simp only [usageDoc] at hwi
-      rw [nEvents_doc, nAliases_doc, nAnchors_doc, nNodes_doc, maxDepth_doc, scalarBytes_doc, ← hmk] at hwi
-      rw [docRun_eq] at h
-      split at h
-      · omega
-      · have hnu : b ≠ .unbalanced := by
-          rintro rfl
-          have := unbalanced_wfAll_false (e := docStartState lim 0) rfl (by simpa [docStartState] using hl) h
-          have hw : wfAll true [] (docBody d) = true := congrArg (·.2.2) (G_docBody true d)
-          simp only [docStartState] at this
-          rw [hw] at this; cases this
-        obtain ⟨pre, ev, post, heq, -, -, herr⟩ := runFrom_err h
-        have hb := observe_err herr
-        rw [heq] at hp hl hwi
-        simp only [List.all_append, List.all_cons, Bool.and_eq_true] at hp
-        obtain ⟨hpp, hpe, -⟩ := hp
-        rw [pro_of_not_docStart (plainEv_iff.1 hpe).1] at hb
-        simp only [List.length_append, List.length_cons] at hl hwi
-        have hlen' : pre.length < 2 ^ 64 := by omega
-        cases b <;> simp only [BreachSpec, doc_lim] at hb
-        case events n => rw [doc_events lim pre hpp] at hb; omega
-        case nodes n =>
-          rw [doc_nodes lim pre hpp] at hb
-          rw [nNodes_append, nNodes_cons, hb.1] at hwi; simp only [b2n, if_true] at hwi; omega
-        case aliases n =>
-          rw [doc_aliases lim pre hpp] at hb
-          rw [nAliases_append, nAliases_cons, hb.1] at hwi; simp only [b2n, if_true] at hwi; omega
-        case documents n =>
-          have : (nextAll (docStartState lim 0) pre).perDocument = true := by rw [nextAll_pd]; rfl
-          rw [this] at hb; cases hb.2.1
-        case anchors n =>
-          rw [doc_defined lim pre hpp] at hb
-          have h1 : (defAfter [] (pre ++ ev :: post)).length =
-              (defAfter (defIns (defAfter [] pre) (anchorOf ev)) post).length := by
-            rw [defAfter_append]; rfl
-          have h2 := defAfter_length_ge (defIns (defAfter [] pre) (anchorOf ev)) post
-          omega
-        case scalarBytes n =>
-          rw [doc_tsb lim pre hpp, satAdd_eq_min] at hb
-          rw [scalarBytes_append, scalarBytes_cons] at hwi; omega
-        case depth n =>
-          obtain ⟨hd, hm⟩ := doc_depth lim pre hpp hlen'
-          have hle := depthAfter_le 0 pre
-          rw [hd, hm, satAdd_one (by omega)] at hb
-          have hge := maxDepthFrom_ge (depthStep (depthAfter 0 pre) ev)
-            (max (maxDepthFrom 0 0 pre) (depthStep (depthAfter 0 pre) ev)) post
-          rw [maxDepthFrom_append] at hwi
-          simp only [maxDepthFrom] at hwi
-          rw [depthStep_eq, hb.1] at hge hwi
-          simp only [if_true] at hge hwi hb
-          omega
-        case mergeKeys n =>
-          rw [doc_mergeKeys lim pre hpp, doc_containers lim pre hpp] at hb
-          rw [mkAll_append] at hwi; simp only [mkAll] at hwi; omega
-        case unbalanced => exact hnu rfl
+      obtain ⟨a, n, rfl⟩ := perdoc_no_other_breach lim d hlen hwi j b h
+      have := (perdoc_ratio_breach_spec lim d hlen j a n h).2.2.2.2
+      rw [hro] at this; cases this
+
+/-- (T) ratio_exact, per document: the document read on its own raises the ratio breach — at its own `DocumentEnd`, with its
+own alias and anchor counts — exactly when its counts are within the limits and the Spec ratio check fails on them. -/
+theorem perdoc_ratio_exact (lim : Limits) (d : Node) (hlen : (flattenDoc d).length < 2 ^ 64) (j a n : Nat) :
+    runFrom (Enf.new lim true) 0 (flattenDoc d) = .error (j, .ratio a n) ↔
+      (j = (flattenDoc d).length - 1 ∧ a = (usageDoc d).aliases ∧ n = (usageDoc d).anchors ∧
+        within lim (usageDoc d) = true ∧ ratioOk lim (usageDoc d) = false) := by
+  constructor
+  · exact perdoc_ratio_breach_spec lim d hlen j a n
+  · rintro ⟨rfl, rfl, rfl, hwi, hro⟩
+    show docRun lim d = _
+    cases h : docRun lim d with
+    | ok e =>
+      have := (perdoc_ok_spec lim d e hlen h).2.1
+      rw [hro] at this; cases this
+    | error p =>
+      obtain ⟨j, b⟩ := p
+      obtain ⟨a, n, rfl⟩ := perdoc_no_other_breach lim d hlen hwi j b h
+      obtain ⟨rfl, rfl, rfl, -, -⟩ := perdoc_ratio_breach_spec lim d hlen j a n h
+      rfl
+
+/-- (T) perdoc_ratio_position_independent: in a stream `pre ++ [d] ++ post` whose documents before `d` are accepted, the
+ratio breach is raised at `d`'s own `DocumentEnd` ⇔ the one-document stream `[d]` raises it at its `DocumentEnd` ⇔ the
+Spec verdict on `d`'s own counts — whatever precedes, whatever follows.  (Index of `d`'s `DocumentEnd`: everything before
+`d` plus `d`'s events but one.) -/
+theorem perdoc_ratio_position_independent (lim : Limits) (pre : List Node) (d : Node) (post : List Node) (a n : Nat)
+    (hlen : (flattenDoc d).length < 2 ^ 64) (hpre : perDocAccepts lim pre = true) :
+    (run lim true (flattenStream (pre ++ d :: post)) =
+        .error ((beforeDoc pre).length + ((flattenDoc d).length - 1), .ratio a n) ↔
+      run lim true (flattenStream [d]) = .error (1 + ((flattenDoc d).length - 1), .ratio a n)) ∧
+    (run lim true (flattenStream [d]) = .error (1 + ((flattenDoc d).length - 1), .ratio a n) ↔
+      (a = (usageDoc d).aliases ∧ n = (usageDoc d).anchors ∧
+        within lim (usageDoc d) = true ∧ ratioOk lim (usageDoc d) = false)) := by
+  have hpos : 0 < (flattenDoc d).length := by rw [flattenDoc_eq]; simp
+  have hsingle : run lim true (flattenStream [d]) = .error (1 + ((flattenDoc d).length - 1), .ratio a n) ↔
+      docRun lim d = .error ((flattenDoc d).length - 1, .ratio a n) := by
+    rw [perDoc_single]
+    cases h : docRun lim d with
+    | ok e => simp [shiftErr]
+    | error p =>
+      obtain ⟨j, b⟩ := p
+      simp only [shiftErr, Except.error.injEq, Prod.mk.injEq]
+      constructor
+      · rintro ⟨h1, h2⟩; exact ⟨by omega, h2⟩
+      · rintro ⟨h1, h2⟩; exact ⟨by omega, h2⟩
+  refine ⟨?_, ?_⟩
+  · rw [hsingle]
+    constructor
+    · intro h
+      exact perdoc_breach_in_doc lim pre d post _ _ h (by omega)
+    · intro h
+      exact perdoc_doc_breach_surfaces lim pre d post _ _ hpre h
+  · rw [hsingle]
+    have := perdoc_ratio_exact lim d hlen ((flattenDoc d).length - 1) a n
+    constructor
+    · intro h
+      exact (this.1 h).2
+    · intro h
+      exact this.2 ⟨rfl, h⟩
+
+/-- (T) under the per-document policy `finalize` never reports a breach: the ratio of every document was judged at its
+`DocumentEnd` (and the counters left at the end of a stream may belong to a document that was abandoned half-way) -/
+theorem perdoc_finalize_silent (e : Enf) (hpd : e.perDocument = true) : e.finalize.2 = none :=
+  finalize_snd_pd e hpd
+
+/-- the complete verdict on a stream under the per-document policy: `observe` accepts every event AND `finalize` reports
+nothing -/
+def perDocAcceptsFull (lim : Limits) (ds : List Node) : Bool :=
+  match run lim true (flattenStream ds) with
+  | .ok e => e.finalize.2.isNone
+  | .error _ => false
+
+/-- (T) perdoc_independent, ratio included: the complete verdict (all counters, the ratio heuristic, `finalize`) on a
+stream is the conjunction of the complete verdicts on its documents, each as a stream of its own. -/
+theorem perdoc_independent_full (lim : Limits) (ds : List Node) :
+    perDocAcceptsFull lim ds = ds.all (fun d => perDocAcceptsFull lim [d]) := by
+  have hfull : ∀ ds, perDocAcceptsFull lim ds = perDocAccepts lim ds := by
+    intro ds
+    unfold perDocAcceptsFull perDocAccepts
+    cases h : run lim true (flattenStream ds) with
+    | error p => rfl
+    | ok e =>
+      have hpd : e.perDocument = true := by
+        obtain ⟨rfl, -⟩ := runFrom_ok h; rw [nextAll_pd]; rfl
+      simp only [finalize_snd_pd e hpd]; rfl
+  simp only [hfull]
+  exact perdoc_independent lim ds
 
 -- (E) non-vacuity and concrete thresholds
 def demoLim : Limits :=
@@ -662,6 +829,49 @@ example :
     (∃ e, runFromOld (Enf.new lim5 true) 0 (beforeDoc [regA]) = .ok e ∧ e.report.events = 4) ∧
     (∃ e, runFromOld (Enf.new lim5 true) 0 (flattenStream [regA]) = .ok e ∧ e.report.events = 5) :=
   ⟨⟨_, rfl, rfl⟩, ⟨_, rfl, rfl⟩⟩
+
+/-! ### regression: the alias/anchor ratio was judged for the LAST document only
+
+`{a: &x 1, b: [*x, *x, *x]}` (3 aliases, 1 anchor) under `alias_anchor_min_aliases = 1`, `alias_anchor_ratio_multiplier = 1`.
+Before the repair `observe` never judged the ratio and `finalize` judged it once, on the counters left at the end of the
+stream: the document passed as a non-last document and was rejected as the last one or alone. -/
+
+/-- `{a: &x 1, b: [*x, *x, *x]}` -/
+def ratioDoc : Node :=
+  .map 0 none [(.scalar ['a'] .plain 0 none, .scalar ['1'] .plain 1 none),
+               (.scalar ['b'] .plain 0 none, .seq 0 none [.alias 1, .alias 1, .alias 1])]
+def ratioLim : Limits := { demoLim with minAliases := 1, multiplier := 1 }
+
+/-- FOR THE RECORD — the verdict of the code before this repair on the ratio: the events pass `observe` without any
+ratio check (expressed with the current model by switching the heuristic off), then `finalize` judges the counters the
+stream ended with -/
+def ratioAtEndOnly (lim : Limits) (ds : List Node) : Option Breach :=
+  match run { lim with enforceRatio := false } true (flattenStream ds) with
+  | .ok e => ({ e with lim := lim }).ratioBreach
+  | .error _ => none
+
+/-- the old code: accepted in first position, rejected in last position and alone -/
+example : ratioAtEndOnly ratioLim [ratioDoc, regB] = none ∧ ratioAtEndOnly ratioLim [regB, ratioDoc] = some (.ratio 3 1) ∧
+    ratioAtEndOnly ratioLim [ratioDoc] = some (.ratio 3 1) := by decide
+
+/-- now: rejected wherever it stands, at its own `DocumentEnd` (its 12th event), with its own counts -/
+example : run ratioLim true (flattenStream [ratioDoc]) = .error (12, .ratio 3 1) ∧
+    run ratioLim true (flattenStream [ratioDoc, regB]) = .error (12, .ratio 3 1) ∧
+    run ratioLim true (flattenStream [regB, ratioDoc]) = .error (15, .ratio 3 1) ∧
+    run ratioLim true (flattenStream [regB, ratioDoc, regC]) = .error (15, .ratio 3 1) ∧
+    (beforeDoc [regB]).length + ((flattenDoc ratioDoc).length - 1) = 15 := ⟨rfl, rfl, rfl, rfl, rfl⟩
+example : [[ratioDoc, regB], [regB, ratioDoc], [ratioDoc], [regB, regC]].map (perDocAcceptsFull ratioLim) =
+    [false, false, false, true] := by decide
+/-- the Spec verdict on the document's own counts (`perdoc_accepts_iff`, `perdoc_ratio_exact`) -/
+example : within ratioLim (usageDoc ratioDoc) = true ∧ ratioOk ratioLim (usageDoc ratioDoc) = false ∧
+    (usageDoc ratioDoc).aliases = 3 ∧ (usageDoc ratioDoc).anchors = 1 ∧
+    ratioOk { ratioLim with multiplier := 3 } (usageDoc ratioDoc) = true := by decide
+/-- with a multiplier the document satisfies it is accepted at every position, and `finalize` stays silent -/
+example : [[ratioDoc, regB], [regB, ratioDoc], [ratioDoc]].map (perDocAcceptsFull { ratioLim with multiplier := 3 }) =
+    [true, true, true] := by decide
+/-- the whole-input policy is unchanged: the ratio is judged by `finalize` over the whole stream -/
+example : (∃ e, run ratioLim false (flattenStream [ratioDoc, regB]) = .ok e ∧ e.finalize.2 = some (.ratio 3 1)) :=
+  ⟨_, rfl, rfl⟩
 
 /-! ### the iterator's recovery path (`LiveEvents::skip_to_next_document`)
 
@@ -808,6 +1018,13 @@ example :
 #print axioms perdoc_usage_last
 #print axioms perdoc_report_eq_usageDoc
 #print axioms perdoc_accepts_iff
+#print axioms perdoc_ok_spec
+#print axioms perdoc_no_other_breach
+#print axioms perdoc_ratio_breach_spec
+#print axioms perdoc_ratio_exact
+#print axioms perdoc_ratio_position_independent
+#print axioms perdoc_finalize_silent
+#print axioms perdoc_independent_full
 #print axioms perdoc_recovery_position_independent
 #print axioms perdoc_recovery_breach_only_zero
 #print axioms perdoc_recovery_path_regression
